@@ -526,10 +526,13 @@ pub open spec fn reader_framing(r: BodyReader) -> Framing {
     match r { BodyReader::NoBody => Framing::NoBody, BodyReader::LengthDelimited(n) => Framing::Length(n), BodyReader::Chunked(_) => Framing::Chunked, BodyReader::CloseDelimited => Framing::Close }
 }
 pub open spec fn opt_bytes(o: Option<&str>) -> Option<Seq<u8>> { match o { Some(s) => Some(str_bytes(s)), None => None } }
-/// the lookup closure behaves as a (deterministic) function of the header name
+/// the lookup closure can be called with any name
 pub open spec fn lookup_ok<'a, F: Fn(&str) -> Option<&'a str>>(f: &F) -> bool {
-    &&& forall|s: &str| #[trigger] f.requires((s,))
-    &&& forall|s: &str, o1: Option<&'a str>, o2: Option<&'a str>| f.ensures((s,), o1) && f.ensures((s,), o2) ==> o1 == o2
+    forall|s: &str| #[trigger] f.requires((s,))
+}
+/// the lookup closure answers like the spec function `hdr` (name bytes -> value bytes)
+pub open spec fn lookup_is<'a, F: Fn(&str) -> Option<&'a str>>(f: &F, hdr: spec_fn(Seq<u8>) -> Option<Seq<u8>>) -> bool {
+    forall|s: &str, o: Option<&'a str>| #[trigger] f.ensures((s,), o) ==> opt_bytes(o) == hdr(str_bytes(s))
 }
 pub open spec fn reader_wf(r: BodyReader) -> bool { r is Chunked ==> dechunker_wf(r->Chunked_0) }
 ''')
@@ -546,9 +549,8 @@ LOOKUP_REQ = [('aux.lookup_is_function', 'lookup_ok(header_lookup)')]
 FN('for_response', props=['C06', 'C08', 'C12'], ret='r',
    requires=LOOKUP_REQ,
    ensures=[
-       ('C06.mode_table', '''forall|cl: Option<&'a str>, te: Option<&'a str>|
-            #[trigger] header_lookup.ensures(("content-length",), cl) && #[trigger] header_lookup.ensures(("transfer-encoding",), te) ==>
-            match framing(*method, status_code, http10, opt_bytes(cl), opt_bytes(te)) {
+       ('C06.mode_table', '''forall|hdr: spec_fn(Seq<u8>) -> Option<Seq<u8>>| #[trigger] lookup_is(header_lookup, hdr) ==>
+            match framing(*method, status_code, http10, hdr(str_bytes("content-length")), hdr(str_bytes("transfer-encoding"))) {
                 Some(f) => r is Ok && reader_framing(r->Ok_0) == f && (r->Ok_0 is Chunked ==> r->Ok_0->Chunked_0 == Dechunker::Size),
                 None => r is Err,
             }'''),
@@ -558,12 +560,12 @@ FN('for_response', props=['C06', 'C08', 'C12'], ret='r',
 FN('header_defined', props=['C06', 'C08', 'C12'], ret='r',
    requires=LOOKUP_REQ,
    ensures=[
-       ('aux.header_defined.table', '''forall|cl: Option<&'a str>, te: Option<&'a str>|
-            #[trigger] header_lookup.ensures(("content-length",), cl) && #[trigger] header_lookup.ensures(("transfer-encoding",), te) ==> ({
-            let te_chunked = (te matches Some(v) && te_declares_chunked(str_bytes(v))) && !http10;
-            if cl matches Some(v) && parse_dec_u64(str_bytes(v)) is None { r is Err }
+       ('aux.header_defined.table', '''forall|hdr: spec_fn(Seq<u8>) -> Option<Seq<u8>>| #[trigger] lookup_is(header_lookup, hdr) ==> ({
+            let cl = hdr(str_bytes("content-length")); let te = hdr(str_bytes("transfer-encoding"));
+            let te_chunked = (te matches Some(v) && te_declares_chunked(v)) && !http10;
+            if cl matches Some(v) && parse_dec_u64(v) is None { r is Err }
             else if te_chunked { r == Ok::<Self, Error>(BodyReader::Chunked(Dechunker::Size)) }
-            else if cl is Some { r == Ok::<Self, Error>(BodyReader::LengthDelimited(parse_dec_u64(str_bytes(cl->Some_0))->Some_0)) }
+            else if cl is Some { r == Ok::<Self, Error>(BodyReader::LengthDelimited(parse_dec_u64(cl->Some_0)->Some_0)) }
             else { r == Ok::<Self, Error>(BodyReader::CloseDelimited) } })'''),
    ],
    head='broadcast use axiom_parse_u64;',
